@@ -77,6 +77,21 @@ CHECKS = {
         technique="runtime monitoring: ASan driver + byte-array model; sizes chosen by the driver relative to the buffer's CURRENT capacity; crc32 of contents, terminator, bpos<=size<=real block size (shim) after every step",
         text="16k (quick) / 10^6 histories of 10-60 print-buffer operations incl. must-refuse arguments near INT_MAX.",
         note="trusted: byte-array model; growth policy not asserted"),
+    "C05": dict(
+        level="exploration", design="DESIGN.md §3 C05",
+        technique="runtime monitoring: histories generated online against an ownership model (owner multisets), destruction observed through userdata delete callbacks + allocation ledger + ASan (use-after-free/double free)",
+        text="~5k (quick) / 200k histories of 30-300 API calls over 24 handles incl. shared sub-trees, failing calls and tracked deep copies; after every call the destroyed-uid set, put's return value and (on probes) the whole uid structure are compared with the model.",
+        note="trusted: the Python ownership model; pointer_set/patch steps are exercised for ownership in C12/C13 (value ownership probes, ledger) rather than here"),
+    "C12": dict(
+        level="exploration", design="DESIGN.md §3 C12",
+        technique="runtime monitoring: ASan driver + RFC 6901 reference evaluator over observed node identities (pointer-annotated dumps) for get/getf/set/setf; full-tree dump diff after every set; ownership probe after failed sets",
+        text="16k (quick) / 200k trees with adversarial member names, null members/elements; the canonical pointer to every node plus malformed/dangling pointers; 1-3 sets per tree.",
+        note="trusted: reference evaluator (self-tested on the RFC 6901 section 5 table); '~' not followed by 0/1 and NULL roots are not asserted"),
+    "C13": dict(
+        level="exploration", design="DESIGN.md §3 C13",
+        technique="runtime monitoring: ASan driver + RFC 6902 reference evaluator (deep-copy semantics) comparing rc, failure index, result dump, patch dump before/after and copy_from dump; violating cases are bisected op by op for their key",
+        text="10^5 conformance patches generated against the evolving reference document + 6*10^4 malformed/damaged patches (quick); 10^6 + 10^6 thorough.",
+        note="trusted: reference evaluator (self-tested on RFC 6902 appendix A); document state after a failed patch, whole-document removal and null whole documents are not asserted"),
 }
 
 NOT_YET = {}
